@@ -4,7 +4,12 @@ fn main() {
     let text = std::fs::read_to_string(&path).unwrap();
     let se = sway_types::SourceEngine::default();
     match sway_ir::parser::parse(&text, &se, sway_features::ExperimentalFeatures::default(), Default::default()) {
-        Ok(ir) => {
+        Ok(mut ir) => {
+            ir.verify_ssa_dominance = true;
+            match ir.verify() {
+                Ok(()) => println!("verify ok"),
+                Err(e) => println!("verify ERR {e}"),
+            }
             let t2 = sway_ir::printer::to_string(&ir);
             println!("ok; reprinted {} bytes; same={}", t2.len(), t2 == text);
         }
